@@ -203,10 +203,26 @@ def k_write(run, case, rng, work):
         tr = PoseTrajectory3D(p, q, t) if fmt == "tum" else PosePath3D(p, q)
         mode = "xyzq"
     given = gen.read_views(tr)
-    buf = io.StringIO()
-    (fi.write_tum_trajectory_file if fmt == "tum" else fi.write_kitti_poses_file)(buf, tr)
-    text = buf.getvalue()
-    run.seen(case, core.digest(text), cls=["write " + fmt, "written positions dtype:" + dt],
+    writer = fi.write_tum_trajectory_file if fmt == "tum" else fi.write_kitti_poses_file
+    target = ["StringIO", "StringIO", "new file", "existing longer file", "existing longer file, confirmed with y"][rng.integers(5)]
+    if target == "StringIO":
+        buf = io.StringIO()
+        writer(buf, tr)
+        text = buf.getvalue()
+    else:
+        from vmon import cli
+        path = os.path.join(work, "w.%s" % fmt)
+        if target != "new file":
+            # the target holds an older, longer export
+            old = C06.make_traj(rng, n + int(rng.integers(1, 30)), "random17", "xyzq", stamped=(fmt == "tum"))
+            writer(path, old)
+        if target.endswith("y"):
+            with cli.scripted_input(["y"] * 5, []):
+                writer(path if rng.random() < .5 else Path(path), tr, confirm_overwrite=True)
+        else:
+            writer(path if rng.random() < .5 else Path(path), tr)
+        text = open(path, newline="").read()
+    run.seen(case, core.digest(text), cls=["write " + fmt, "written positions dtype:" + dt, "write target: " + target],
              sample={"fmt": fmt, "dtype": dt, "first_line": text.splitlines()[0][:200]})
     try:
         if fmt == "tum":
